@@ -2324,3 +2324,38 @@ def cross_encoder_sensitive_stream(start_id=46000):
     ops.append('enew %d' % x); ops.append('dnew %d' % x)
     ops.append('eenc %d 1 %s' % (x, _hs([(b'x-api-key', b'secret', 1)]))); ops.append('pipe %d 1 %d' % (x, x))
     return ops
+
+
+def huff_large_stream(full=False):
+    """Huffman strings whose decoded or encoded length passes the powers of two around 64 KiB / 128 KiB (default limits,
+    16-bit counters, pre-sized buffers): accepted ones, and the same with a broken last octet. hdec, henc and hrt."""
+    ops = []
+    sizes = [65535, 65536, 65537, 70001] + ([131071, 131072, 131073, 262145] if full else [131073])
+    for n in sizes:
+        for mk in (lambda n: b'a' * n,                                     # 5-bit codes: n octets out of 5n/8 in
+                   lambda n: bytes((j * 37 + 11) % 256 for j in range(n)),  # every symbol
+                   lambda n: (b'0123456789abcdef; path=/' * (n // 24 + 1))[:n]):
+            s = mk(n)
+            e = huff_encode(s)
+            ops.append('hdec ' + hx(e) + ('' if n % 2 else ' #buf=memoryview'))
+            ops.append('hdec ' + hx(e[:-1] + bytes([e[-1] ^ 0x01])))       # last bit flipped: other symbol or refused
+            if n == 65537 and s[:2] == b'aa':        # the library's encoder is quadratic in the string length (one big integer): one string only
+                ops.append('hrt ' + hx(s))
+    for m in (65535, 65536, 65537):                                        # inputs of exactly that many octets
+        e = huff_encode(b'a' * (m * 8 // 5 + 8))[:m - 1]
+        for last in (0x1f, 0xff, 0x18):
+            ops.append('hdec ' + hx(e + bytes([last])))
+    return ops
+
+
+def huff_copy_stream(g):
+    """the application copies / deep-copies / pickles the HuffmanEncoder it holds and goes on with the copy"""
+    ops = []
+    probe = ['henc %02x' % b for b in (0, 0x30, 0x61, 0xff, 0x80)] + ['hrt ' + hx(bytes(range(256))), 'henc -',
+             'hrt ' + hx(b'www.example.com'), 'henc ' + hx(b'\x00' * 9), 'hrt ' + hx(b'\xff' * 5)]
+    ops += probe
+    for kind in ('copy', 'deep', 'pickle', 'deep', 'copy'):
+        ops.append('hcopy ' + kind)
+        ops += probe
+        ops += ['hrt ' + hx(bytes(g.rnd.randrange(256) for _ in range(g.rnd.randint(1, 30)))) for _ in range(10)]
+    return ops
